@@ -58,14 +58,66 @@ def pattern(t):
     return None
 
 
+def _parts(v):
+    """The pieces a text is assembled from, in order (string constants and other terms), for a + b, f-strings and
+    str.format with positional / automatic fields; None for anything else.  Adjacent constants are merged."""
+    import re
+    if v[0] == "const" and isinstance(v[1], str):
+        out = [v[1]]
+    elif v[0] == "binop" and v[1] == "Add":
+        a, b = _parts(v[2]), _parts(v[3])
+        if a is None or b is None:
+            return None
+        out = a + b
+    elif v[0] == "fstr":
+        out = []
+        for x in v[1:]:
+            q = _parts(x)
+            if q is None:
+                return None
+            out += q
+    elif v[0] == "mcall" and v[2] == "format" and v[1][0] == "const" and isinstance(v[1][1], str):
+        args = [a for a in v[3]]
+        if any(a[0] == "kw" for a in args):
+            return None
+        out = []
+        auto = 0
+        pos = 0
+        for mo in re.finditer(r"\{(\d*)\}", v[1][1]):
+            if mo.start() > pos:
+                out.append(v[1][1][pos:mo.start()])
+            k = mo.group(1)
+            if k == "":
+                k = auto
+                auto += 1
+            k = int(k)
+            if k >= len(args):
+                return None
+            q = _parts(args[k])
+            if q is None:
+                return None
+            out += q
+            pos = mo.end()
+        if pos < len(v[1][1]):
+            out.append(v[1][1][pos:])
+        if "{" in "".join(x for x in out if isinstance(x, str) and x not in ("{",)) and False:
+            return None
+    else:
+        out = [v]
+    merged = []
+    for x in out:
+        if isinstance(x, str) and merged and isinstance(merged[-1], str):
+            merged[-1] += x
+        elif x != "":
+            merged.append(x)
+    return merged
+
+
 def _quoted_wrap(v):
-    """X if v is '"' + X + '"' or '"{}"'.format(X), else None."""
-    if v[0] == "mcall" and v[2] == "format" and v[1] == ("const", '"{}"') and len(v[3]) == 1:
-        return v[3][0]
-    if v[0] == "binop" and v[1] == "Add" and v[3] == ("const", '"') and v[2][0] == "binop" and v[2][1] == "Add" and v[2][2] == ("const", '"'):
-        return v[2][3]
-    if v[0] == "fstr" and len(v) == 4 and v[1] == ("const", '"') and v[3] == ("const", '"'):
-        return v[2]
+    """X if v is the text '"' X '"' (however it is assembled), else None."""
+    ps = _parts(v)
+    if ps is not None and len(ps) == 3 and ps[0] == '"' and ps[2] == '"' and not isinstance(ps[1], str):
+        return ps[1]
     return None
 
 
@@ -77,6 +129,51 @@ def _replace_chain(t):
         t = t[1]
     chain.reverse()
     return t, chain
+
+
+def _field_alternatives(p):
+    """The text written for one field on the path p of the csv writer, whatever the idiom: a loop over the item that
+    appends one text per field, or a comprehension over the item applying a formatter.
+    Returns (row ok, [(decisions [(test, outcome)], value, field term)]) ; row ok says that the emitted row is
+    separator.join(<these texts>) + newline."""
+    ems = [m for m in emissions(p) if m.method == "on_next"]
+    last = ems[-1].eff.arg if ems else None
+    row_ok = last is not None and last[0] == "binop" and last[1] == "Add" and last[3][0] == "param" and last[3][1] == "newline" and \
+        last[2][0] == "mcall" and last[2][2] == "join" and last[2][1][0] == "param" and last[2][1][1] == "separator" and len(last[2][3]) == 1
+    if not row_ok:
+        return False, []
+    fields = last[2][3][0]
+    alts = []
+    if fields[0] == "comp" and len(fields) >= 5 and len(fields[4]) == 1 and fields[4][0] == EV:
+        elt = fields[3]
+        F = next((x for x in subterms(elt) if x[0] == "compvar"), None) if elt[0] != "alts" else \
+            next((x for a_ in elt[1:] for t_ in [a_[2]] + [d[0] for d in a_[1]] for x in subterms(t_) if x[0] == "compvar"), None)
+        if elt[0] == "alts":
+            for a_ in elt[1:]:
+                alts.append((list(a_[1]), a_[2], F))
+        else:
+            alts.append(([], elt, F))
+        return True, alts
+    # a list filled by one append per iteration of a loop over the item
+    loops = [e for e in p.trace if e.k == "loopiter" and e.iter == EV]
+    for it in loops:
+        pos = p.trace.index(it)
+        end = next((k for k in range(pos + 1, len(p.trace)) if p.trace[k].k in ("loopiter", "loopexit")), len(p.trace))
+        body = p.trace[pos:end]
+        apps = [e for e in body if e.k == "mutate" and e.method == "append" and e.base == fields]
+        if len(apps) != 1:
+            return False, []
+        alts.append(([(e.test, e.outcome) for e in body if e.k == "decision"], apps[0].args[0], it.var))
+    return True, alts
+
+
+def _is_str_test(t, F):
+    """(polarity) of a test 'the field is a str' on the field term F (or on str(F)), None if it is another test"""
+    if t[0] == "cmp" and t[1] in ("Is", "Eq", "IsNot", "NotEq") and t[3] == ("builtin", "str") and t[2][0] == "call" and t[2][1] == ("builtin", "type"):
+        return t[1] in ("Is", "Eq")
+    if t[0] == "call" and t[1] == ("builtin", "isinstance") and len(t[2]) == 2 and t[2][1] == ("builtin", "str"):
+        return True
+    return None
 
 
 def rule_csv_tables(ctx: Ctx) -> RuleResult:
@@ -91,42 +188,31 @@ def rule_csv_tables(ctx: Ctx) -> RuleResult:
             r.paths += 1
             if not _normal(p):
                 continue
-            apps = [e for e in p.trace if e.k == "mutate" and e.method == "append"]
-            loops = [e for e in p.trace if e.k == "loopiter"]
-            if not loops:
+            row_ok, alts = _field_alternatives(p)
+            if not row_ok and not any(e.k == "loopiter" for e in p.trace) and not any(x[0] == "comp" for e in p.trace if e.k == "emit" and e.arg for x in subterms(e.arg)):
                 continue
             r.groups.add(("dump", len(r.groups)))
-            r.ob(len(apps) == 1, lambda: mk_finding("CS-1", spec, None, cfg, p, "each field must be appended exactly once to the output row; appends: %s" % len(apps), extra="append"))
-            if len(apps) != 1:
-                continue
-            v = apps[0].args[0]
-            is_str = [e for e in p.trace if e.k == "decision" and (
-                (e.test[0] == "cmp" and e.test[1] in ("Is", "Eq") and e.test[3] == ("builtin", "str")
-                 and e.test[2][0] == "call" and e.test[2][1] == ("builtin", "type")) or
-                (e.test[0] == "call" and e.test[1] == ("builtin", "isinstance") and len(e.test[2]) == 2 and e.test[2][1] == ("builtin", "str")))]
-            if is_str and is_str[0].outcome:
-                # the quoted, escaped field:  '"' + <replace chain> + '"'
-                inner_v = _quoted_wrap(v)
-                ok = inner_v is not None
-                if ok:
-                    base, chain = _replace_chain(inner_v)
-                    writer = chain
-                    ok = len(chain) == 2
-                r.ob(ok, lambda: mk_finding("CS-1", spec, None, cfg, p, "a string field must be escaped (escapechar, then quote) and wrapped in quotes; it is written as %s" % show(v), extra="escape"))
-            else:
-                isnone = [e for e in p.trace if e.k == "decision" and e.test[0] == "cmp" and e.test[1] in ("Is", "Eq") and ("const", None) in (e.test[2], e.test[3])]
-                if isnone and isnone[0].outcome:
-                    none_ok = none_ok or v == ("const", "")
-                    r.ob(v == ("const", ""), lambda: mk_finding("CS-1", spec, None, cfg, p, "None must be written as an empty field; it is written as %s" % show(v), extra="none"))
-                elif isnone:
-                    other_ok = other_ok or (v[0] == "call" and v[1] == ("builtin", "str"))
-                    r.ob(v[0] == "call" and v[1] == ("builtin", "str"), lambda: mk_finding("CS-1", spec, None, cfg, p, "numbers and booleans must be written with str(); written as %s" % show(v), extra="str"))
-            # row assembly
-            ems = [m for m in emissions(p) if m.method == "on_next"]
-            last = ems[-1].eff.arg if ems else None
-            ok = last is not None and last[0] == "binop" and last[1] == "Add" and last[3][0] == "param" and last[3][1] == "newline" and \
-                last[2][0] == "mcall" and last[2][2] == "join" and last[2][1][0] == "param" and last[2][1][1] == "separator"
-            r.ob(ok, lambda: mk_finding("CS-1", spec, None, cfg, p, "the row must be separator.join(fields) + newline; emitted %s" % (show(last) if last else None), extra="row"))
+            r.ob(row_ok, lambda: mk_finding("CS-1", spec, None, cfg, p, "the row must be separator.join(<one text per field>) + newline; emitted %s" % summary(p), extra="row"))
+            for decs, v, F in alts:
+                strs = [(_is_str_test(t, F), o) for t, o in decs if _is_str_test(t, F) is not None]
+                is_str = any(pol == o for pol, o in strs)
+                if is_str:
+                    # the quoted, escaped field:  '"' + <replace chain> + '"'
+                    inner_v = _quoted_wrap(v)
+                    ok = inner_v is not None
+                    if ok:
+                        base, chain = _replace_chain(inner_v)
+                        writer = chain
+                        ok = len(chain) == 2
+                    r.ob(ok, lambda v=v: mk_finding("CS-1", spec, None, cfg, p, "a string field must be escaped (escapechar, then quote) and wrapped in quotes; it is written as %s" % show(v), extra="escape"))
+                else:
+                    isnone = [(t, o) for t, o in decs if t[0] == "cmp" and t[1] in ("Is", "Eq") and ("const", None) in (t[2], t[3])]
+                    if isnone and isnone[0][1]:
+                        none_ok = none_ok or v == ("const", "")
+                        r.ob(v == ("const", ""), lambda v=v: mk_finding("CS-1", spec, None, cfg, p, "None must be written as an empty field; it is written as %s" % show(v), extra="none"))
+                    elif isnone:
+                        other_ok = other_ok or (v[0] == "call" and v[1] == ("builtin", "str"))
+                        r.ob(v[0] == "call" and v[1] == ("builtin", "str"), lambda v=v: mk_finding("CS-1", spec, None, cfg, p, "numbers and booleans must be written with str(); written as %s" % show(v), extra="str"))
     want_w = [("<escapechar>", "<escapechar><escapechar>"), ('"', '<escapechar>"')]
     r.ob(writer == want_w, lambda: Finding("CS-1", "%s::dump{escape-table}" % CSV, site.where(),
                                            "dump must double the escape character and then escape the quote; it applies %s" % writer))
@@ -136,7 +222,9 @@ def rule_csv_tables(ctx: Ctx) -> RuleResult:
     r.instances += 1
     reader = None
     split_ok = False
-    for p in ctx.fn_paths(m, fn, cfg={"ignore_error": "False"}, max_iter=1, inline=False):
+    merge_args_ok = None
+    mm_, mfn = ctx.function(CSV, "merge_escape_parts")
+    for p in ctx.fn_paths(m, fn, cfg={"ignore_error": "False"}, max_iter=1, no_inline=(mfn,)):
         r.paths += 1
         if not _normal(p):
             continue
@@ -144,6 +232,9 @@ def rule_csv_tables(ctx: Ctx) -> RuleResult:
         for e in p.trace:
             if e.k == "call" and e.d.get("method") == "split" and e.base == LINE:
                 split_ok = split_ok or (len(e.args) == 1 and e.args[0][0] == "param" and e.args[0][1] == "separator")
+            if e.k == "call" and e.func == ("func", mfn, mm_):
+                ok_ = len(e.args) == 3 and e.args[1][0] == "param" and e.args[1][1] == "separator" and e.args[2][0] == "param" and e.args[2][1] == "escapechar"
+                merge_args_ok = ok_ if merge_args_ok is None else (merge_args_ok and ok_)
         # the unquoting branch: value handed to the column parser is a replace chain over i[1:-1]
         for e in p.trace:
             if e.k == "call" and e.func[0] == "sub" and e.func[1] == ("arg", m.scopes[fn].params[1]) and e.args:
@@ -170,35 +261,53 @@ def rule_csv_tables(ctx: Ctx) -> RuleResult:
     r.ob(dd.get("newline") == df.get("newline") == "'\\n'", lambda: Finding("CS-1", "%s{default-newline}" % CSV, md.where(fd), "newline defaults differ from the line framing delimiter"))
     # dump_to_file forwards its parameters to dump
     calls = [n for n in ast.walk(ff) if isinstance(n, ast.Call) and dotted_name(n.func) == "dump"]
-    ok = len(calls) == 1 and {k.arg: ast.unparse(k.value) for k in calls[0].keywords} == {"header": "header", "separator": "separator", "escapechar": "escapechar", "newline": "newline"}
+    ok = len(calls) == 1
+    if ok:
+        pos = [a.arg for a in fd.args.args]
+        got = {}
+        for k_, a_ in enumerate(calls[0].args):
+            if k_ < len(pos):
+                got[pos[k_]] = ast.unparse(a_)
+        for k_ in calls[0].keywords:
+            got[k_.arg] = ast.unparse(k_.value)
+        ok = got == {"header": "header", "separator": "separator", "escapechar": "escapechar", "newline": "newline"}
     r.ob(ok, lambda: Finding("CS-1", "%s::dump_to_file{forward}" % CSV, mf.where(ff), "dump_to_file must forward header, separator, escapechar and newline to dump"))
     # merge_escape_parts receives separator and escapechar
-    calls = [n for n in ast.walk(fn) if isinstance(n, ast.Call) and dotted_name(n.func) == "merge_escape_parts"]
-    ok = len(calls) == 1 and [ast.unparse(a) for a in calls[0].args][1:] == ["separator", "escapechar"]
+    ok = merge_args_ok is True
     r.ob(ok, lambda: Finding("CS-1", "%s::parse_line{merge-args}" % CSV, m.where(fn), "merge_escape_parts must receive the separator and the escape character"))
     # ---- type table --------------------------------------------------------------
     mt, ft = ctx.function(CSV, "type_parser")
     r.instances += 1
-    table = {}
-    for node in ast.walk(ft):
-        if isinstance(node, ast.If) and isinstance(node.test, ast.Compare):
-            key = ast.unparse(node.test)
-            ret = [s for s in node.body if isinstance(s, ast.Return)]
-            if ret:
-                table[key] = ret[0].value
-    def parser_for(tname):
-        for k, v in table.items():
-            if "'%s'" % tname in k:
-                return v
+    tparam = mt.scopes[ft].params[0]
+
+    def parser_for(*type_terms):
+        """the function type_parser returns for each spelling of a column type; they must agree"""
+        got = set()
+        for tt in type_terms:
+            for p in ctx.fn_paths(mt, ft, extra_env={tparam: tt}):
+                if p.outcome == "return":
+                    got.add(p.value)
+                else:
+                    got.add(None)
+        return next(iter(got)) if len(got) == 1 else None
+
+    def fn_of(t):
+        if t is not None and t[0] in ("func", "lambda"):
+            return t[2], t[1]
         return None
-    pb = parser_for("bool")
-    r.ob(pb is not None and isinstance(pb, ast.Lambda) and ast.unparse(pb.body) in ("i == 'True'", "'True' == i"), lambda: Finding(
+    pb = fn_of(parser_for(("const", "bool"), ("builtin", "bool")))
+    okb = False
+    if pb is not None:
+        A0 = ("arg", pb[0].scopes[pb[1]].params[0])
+        vals = {p.value for p in ctx.fn_paths(pb[0], pb[1])}
+        okb = vals <= {("cmp", "Eq", A0, ("const", "True")), ("cmp", "Eq", ("const", "True"), A0)} and bool(vals)
+    r.ob(okb, lambda: Finding(
         "CS-1", "%s::type_parser{bool}" % CSV, mt.where(ft), "bool fields are written with str() ('True'/'False') and must be parsed by comparison with 'True'"))
     for tname in ("int", "float"):
-        pv = parser_for(tname)
-        okp = isinstance(pv, ast.Name)
+        pv = fn_of(parser_for(("const", tname), ("builtin", tname)))
+        okp = pv is not None
         if okp:
-            pm, pf = ctx.function(CSV, pv.id)
+            pm, pf = pv
             empty_none = False
             for p in ctx.fn_paths(pm, pf):
                 d = [e for e in p.trace if e.k == "decision" and any(x[0] == "call" and x[1] == ("builtin", "len") for x in subterms(e.test))]
@@ -476,6 +585,18 @@ def rule_ag7(ctx: Ctx) -> RuleResult:
                     pass
         return out
     wtabs, rtabs = tables(fd), tables(fl)
+    # helpers of the module that merely assemble stages are followed; operator factories (functions returning a
+    # function) and functions of other modules stay calls, so that each stage is named by the operator that builds it
+    helpers = set()
+    for name, b in m.bindings.items():
+        if b[0] != "def":
+            continue
+        f = b[1]
+        nested = {x.name for x in f.body if isinstance(x, ast.FunctionDef)}
+        rets = [x.value for x in ast.walk(f) if isinstance(x, ast.Return) and m.enclosing_function(x) is f]
+        factory = any(isinstance(v, ast.Lambda) or (isinstance(v, ast.Name) and v.id in nested) for v in rets)
+        if not factory:
+            helpers.add(f)
     # ---- writer -------------------------------------------------------------------------
     inner = [n for n in fd.body if isinstance(n, ast.FunctionDef)]
     if len(inner) != 1:
@@ -483,7 +604,7 @@ def rule_ag7(ctx: Ctx) -> RuleResult:
     wfn = inner[0]
     writer = {}
     for comp in ("Obj", "None"):
-        for p in ctx.fn_paths(md, wfn, cfg={"compression": comp}, inline=False):
+        for p in ctx.fn_paths(md, wfn, cfg={"compression": comp}, only_inline=helpers):
             r.paths += 1
             if p.outcome != "return":
                 continue
@@ -522,7 +643,7 @@ def rule_ag7(ctx: Ctx) -> RuleResult:
                     "AG-7", "%s{dump-newline}" % JSON, md.where(fd), "dump must receive the newline parameter"))
     # ---- reader -------------------------------------------------------------------------
     reader = {}
-    for p in ctx.fn_paths(ml, fl, inline=False):
+    for p in ctx.fn_paths(ml, fl, only_inline=helpers):
         r.paths += 1
         if p.outcome != "return":
             continue
